@@ -8,6 +8,7 @@ import (
 	"encoding/json"
 	"flag"
 	"fmt"
+	"github.com/nyaruka/gocommon/urns"
 	"github.com/nyaruka/goflow/excellent"
 	"github.com/nyaruka/goflow/excellent/types"
 	"math/rand"
@@ -244,6 +245,54 @@ func c14QL(args []string) error {
 		n++
 		src := line.Src
 		lw.write(src, line, func(v string) { line.Src = v })
+	}
+	if *shard == 0 {
+		// every property key there is: each registered URN scheme (formatted with its urns. prefix), the attributes, the
+		// fields of the assets - alone, and next to another condition on either side
+		type kd struct {
+			pt  contactql.PropertyType
+			key string
+			val string
+		}
+		var keys []kd
+		for _, sc := range urns.Schemes {
+			keys = append(keys, kd{contactql.PropertyTypeURN, sc.Prefix, "abc123"})
+		}
+		for _, a := range [][2]string{{"name", "Bob"}, {"language", "eng"}, {"uuid", "5d76d86b-3bb9-4d5a-b822-c9d86f5d8e4f"}, {"id", "12345"}, {"created_on", "2020-01-01"},
+			{"last_seen_on", "2020-01-01"}, {"tickets", "2"}, {"urn", "abc123"}} {
+			keys = append(keys, kd{contactql.PropertyTypeAttribute, a[0], a[1]})
+		}
+		for _, f := range [][2]string{{"age", "18"}, {"gender", "m"}} {
+			keys = append(keys, kd{contactql.PropertyTypeField, f[0], f[1]})
+		}
+		other := func() (contactql.QueryNode, qtree) {
+			return contactql.NewCondition(contactql.PropertyTypeAttribute, "name", contactql.OpEqual, "zed"), cond("attr:name", "=", "zed")
+		}
+		for _, k := range keys {
+			for _, op := range []contactql.Operator{contactql.OpEqual, contactql.OpNotEqual} {
+				mk := func() (contactql.QueryNode, qtree) {
+					return contactql.NewCondition(k.pt, k.key, op, k.val), qtree{T: "c", P: string(k.pt) + ":" + k.key, Op: string(op), V: k.val, Ch: []qtree{}}
+				}
+				for shape := 0; shape < 3; shape++ {
+					var node contactql.QueryNode
+					var input qtree
+					c, ct := mk()
+					o, ot := other()
+					switch shape {
+					case 0:
+						node, input = c, ct
+					case 1:
+						node, input = contactql.NewBoolCombination(contactql.BoolOperatorAnd, c, o), qtree{T: "and", Ch: []qtree{ct, ot}}
+					case 2:
+						node, input = contactql.NewBoolCombination(contactql.BoolOperatorOr, o, c), qtree{T: "or", Ch: []qtree{ot, ct}}
+					}
+					line := &QLLine{Src: fmt.Sprintf("keys/%s:%s/%s/%d", k.pt, k.key, op, shape), Kind: "built", Input: input, Text: contactql.Stringify(node),
+						Desc: string(mustJSON(M{"kind": "keys"}))}
+					parseTwice(envN, res, line)
+					emit(line)
+				}
+			}
+		}
 	}
 	if *nrandom > 0 {
 		g := &qgen{r: rand.New(rand.NewSource(*seed*131 + int64(*shard)))}
